@@ -177,6 +177,9 @@ func TestVerifH11(t *testing.T) {
 	vt.Obs("ok")
 	vt.Flush()
 
+	// phase 1c: a Refresh in the instant the lifetime runs out, with the manager's lock busy (h11_refresh_test.go)
+	runH11RefreshVsExpiry(vt)
+
 	// phase 2: a real turn.Client; its relayed socket is used from several goroutines at once
 	vt.OpSync("trace race-client")
 	cpc, err := net.ListenPacket("udp4", "127.0.0.1:0")
